@@ -1058,7 +1058,7 @@ Proof.
   - destruct (flush_acks k (ns_h0 k) (mkStage [] []) (acklist k)) as [[h st]|w] eqn:E; [|discriminate].
     intros H; inversion H; subst.
     exact (ns_acks_ok isn src k _ _ _ _ _ Hal (ns_h0_ok k Hc Hr) (ns_stage0 _) E).
-  - intros H; inversion H; subst. split; [exact (ns_h0_ok k Hc Hr)|apply ns_stage0].
+  - intros H; inversion H; subst h1 st1 k1. split; [exact (ns_h0_ok k Hc Hr)|apply ns_stage0].
 Qed.
 
 Lemma ns_ph3_ok isn src k2 h1 st flag c st' :
